@@ -14,6 +14,7 @@ import (
 	"bytes"
 	"fmt"
 	"net/netip"
+	"strings"
 	"testing"
 	"time"
 
@@ -124,10 +125,33 @@ func run(e *core.Env) {
 		}
 	}
 
+	probeBase := 0
+	if n >= 2 {
+		if pf, err := ms.NewProbeFrame(ms.Nodes[0], ms.Nodes[1].IP, nil, nil, false, ""); err == nil {
+			d, _ := pf.FrameDataWithMargins(0, 0)
+			probeBase = len(d)
+			pf.ReturnToPool()
+		}
+	}
 	tokSeq := 0
 	newToken := func() []byte {
 		tokSeq++
-		return []byte(fmt.Sprintf("TOK-%04d-%x", tokSeq, tp.Bytes(6)))
+		tok := []byte(fmt.Sprintf("TOK-%04d-%x", tokSeq, tp.Bytes(6)))
+		// Frame sizes matter to the forwarding path (pooled buffer tiers, link margins): a third
+		// of the probes carry padding, half of those aimed at making the link record (12-byte
+		// link header + frame + 16-byte tag) fill a buffer tier exactly, or miss it by one.
+		switch tp.Intn(6) {
+		case 0:
+			tok = append(tok, bytes.Repeat([]byte{'p'}, tp.Intn(9000))...)
+		case 1:
+			// a bare probe frame is about 200 bytes: token + header + signature
+			target := []int{600, 1600, 5100, 9600}[tp.Intn(4)] + tp.Intn(3) - 1
+			if pad := target - 28 - probeBase - len(tok); pad > 0 {
+				tok = append(tok, bytes.Repeat([]byte{'q'}, pad)...)
+				e.Probe("probe_sized_at_buffer_tier")
+			}
+		}
+		return tok
 	}
 
 	// ---- Phase A: fault-free routed request / reply ----
@@ -143,6 +167,15 @@ func run(e *core.Env) {
 			b++
 		}
 		A, B := ms.Nodes[a], ms.Nodes[b]
+		// A router on the way may just have failed to build a frame of its own (an error text
+		// beyond the format's limit): nothing leaves it, and nothing about the next frame it
+		// handles may change.
+		if tp.Chance(1, 4) {
+			x := ms.Nodes[tp.Intn(n)]
+			if err := x.Router.ErrorPing.SendGeneric(ms.Nodes[tp.Intn(n)].IP, strings.Repeat("x", 10001+tp.Intn(200))); err != nil {
+				e.Probe("router_failed_to_build_own_frame")
+			}
+		}
 		tok := newToken()
 		t := &tracked{token: tok, initTTL: 32}
 		trk = append(trk, t)
